@@ -20,6 +20,7 @@ from easynetwork.lowlevel.api_async.endpoints.stream import AsyncStreamEndpoint
 from easynetwork.lowlevel.api_sync.endpoints.stream import StreamEndpoint
 from easynetwork.lowlevel.api_sync.transports.abc import StreamTransport
 
+from vlib import netutil  # noqa: E402
 from vlib import drive, gen, memtransport, sockmon, vloop
 from vlib.runner import HangDetected, cpu_guard
 
@@ -290,13 +291,7 @@ def run_async_endpoint(ctx, cfg, buffered: bool, packets, stream, ends, p, cuts,
 
 
 def _tcp_pair() -> tuple[socket.socket, socket.socket]:
-    srv = socket.socket(socket.AF_INET, socket.SOCK_STREAM)
-    srv.bind(("127.0.0.1", 0))
-    srv.listen(1)
-    c = socket.socket(socket.AF_INET, socket.SOCK_STREAM)
-    c.connect(srv.getsockname())
-    s, _ = srv.accept()
-    srv.close()
+    c, s = netutil.tcp_pair(nodelay=False)
     return c, s
 
 
